@@ -456,7 +456,7 @@ class Runner:
         self.cmds, self.expect, self.meta = [], [], []
         self.viol = {}
         self.mode = self.probe()
-        self.push(f"mode {self.mode[0]} {self.mode[1]}", "ok", None)
+        self.push(f"mode {self.mode[0]} {self.mode[1]} {self.mode[2]}", "ok", None)
 
     def push(self, cmd, obs, meta):
         self.cmds.append(drv_line(cmd)); self.expect.append(obs); self.meta.append(meta)
@@ -470,7 +470,10 @@ class Runner:
         real.reset()
         real.execute("init 2 a1.d1|- -"); real.execute("tree i0")
         f15 = 1 if len(real.tm.triggers) == 4 else 0
-        return f4, f15
+        real.reset()
+        real.execute("init 2 - 1,0"); real.execute("import -1 0:-")
+        f5 = 0 if list(real.tm.trigger_display_order) == [0, 1, 2] else 1
+        return f4, f15, f5
 
     def violation(self, sig, what, replay, size):
         key = tuple(sorted(sig.items()))
@@ -508,7 +511,11 @@ class Runner:
             qi += 1
             quiet = cmd.startswith("q ")
             body = cmd[2:] if quiet else cmd
-            pre = Snapshot(real, with_order=synced)
+            # a command whose first selector is a display index reads the display order before anything else, so
+            # reading it here (for the oracle's pre-state) is not observable
+            ws_ = body.split()
+            first_d = len(ws_) > 1 and ws_[0] in ("copy", "tree", "pp", "treepp", "remove", "get") and ws_[1][:1] == "d"
+            pre = Snapshot(real, with_order=synced or first_d)
             st, ret = real.execute(body)
             hist.append(cmd)
             replay = {"env": env, "base": base, "ops": hist[1:]}
